@@ -272,6 +272,9 @@ def finish(pid, tier, seed, mod, results, st_ok, st_info, t0):
         for s in r["samples"]:
             if len(samples) < 5:
                 samples.append(s)
+        for k, v in r.get("notes", {}).items():
+            if k != "crash" and len(notes) < 12 and k not in [n[0] for n in notes]:
+                notes.append((k, v))
         if r["status"] != "ok":
             bad.append({"status": r["status"], "shard": r.get("meta", [None])[0],
                         "detail": (r.get("notes", {}).get("crash") or r.get("stdout", ""))[-1500:]})
@@ -338,6 +341,7 @@ def finish(pid, tier, seed, mod, results, st_ok, st_info, t0):
         "distinct_observed": {k: len(v) for k, v in sets.items()},
         "known_findings_hit": {k: counters.get("known:" + k, len(v)) for k, v in kf_hit.items()},
         "oracle_selftest": st_info,
+        "notes": {k: v for k, v in notes},
         "shards": len(results),
         "shards_not_ok": bad[:3],
         "verdict": verdict,
